@@ -12,7 +12,7 @@ from __future__ import annotations
 
 import contextlib
 
-from symex.poly import pall_in, pand, pconcat, pcontains, peq, pimplies, plen, pnone_in, pnot, por, pstr
+from symex.poly import pall_in, pand, pconcat, pcontains, peq, pimplies, plen, pendswith, pnone_in, pnot, por, pstr
 
 PROPERTY = "C20"
 BOUNDS = {
@@ -67,24 +67,38 @@ def ref_trusted(host, trusted):
 TRUSTED_LISTS = [["ab"], [".ab"], ["a.b", ".c"], ["ab:80"], ["localhost", ".localhost", "127.0.0.1"], ["[::1]", "c"], [".c", "d"]]
 
 
-def body_host_trust(I, X, n=3, tl=0, via="host_is_trusted"):
+def body_host_trust(I, X, n=3, tl=0, via="host_is_trusted", scheme="http", suffix=""):
+    from symex.poly import pconcat
     from werkzeug.exceptions import SecurityError
     from werkzeug.sansio import utils
 
     host = X.str("host", n, minlen=n, maxcp=0x7F)
     X.assume(pall_in(host, HOST_ALPHA))
+    if suffix:
+        # an explicit port after the solver text: the default port of the scheme is dropped
+        # from the returned host, and only the port -- never part of the name -- is ignored
+        host = pconcat(host, suffix)
     trusted = TRUSTED_LISTS[tl]
+    ret = None
     if via == "host_is_trusted":
         got = I.call(utils.host_is_trusted, (host, trusted))
         got = bool(got)
     else:
         try:
-            r = I.call(utils.get_host, ("http", host, None, trusted))
+            ret = I.call(utils.get_host, (scheme, host, None, trusted))
             got = True
         except SecurityError:
             got = False
-    exp = ref_trusted(host, trusted)
-    return got == exp, {"got": got, "exp": exp}
+    want = host
+    if via == "get_host":
+        # get_host first drops the scheme's default port (documented), then checks trust
+        default = {"http": ":80", "https": ":443"}[scheme]
+        want = host[: plen(host) - len(default)] if bool(pendswith(host, default)) else host
+    exp = ref_trusted(want, trusted)
+    ok = got == exp
+    if ret is not None:
+        ok = ok and bool(peq(ret, want))
+    return ok, {"got": got, "exp": exp, "ret": ret}
 
 
 class FakeArgs:
@@ -323,6 +337,12 @@ def obligations(tier, seed):
                 out.append({"name": f"host_trust[{via},list={tl},n={n}]", "body": "body_host_trust",
                             "params": {"n": n, "tl": tl, "via": via},
                             "opts": {"budget_s": 900, "ctx": {"max_cp": 0x7F}}, "witness": n == 2 and tl == 1})
+    for scheme, suffix in (("http", ":80"), ("https", ":443"), ("http", ":443"), ("https", ":80")):
+        for tl in (0, 2, 4):
+            for n in (range(1, 4) if quick else range(1, 6)):
+                out.append({"name": f"host_trust[get_host,{scheme},list={tl},suffix={suffix},n={n}]", "body": "body_host_trust",
+                            "params": {"n": n, "tl": tl, "via": "get_host", "scheme": scheme, "suffix": suffix},
+                            "opts": {"budget_s": 900, "ctx": {"max_cp": 0x7F}}})
     for cmd in ("eval", "console", "pinauth", "printpin", "resource", "none"):
         for hn in ([1, 3] if quick else [0, 1, 2, 3, 4]):
             for secret in ("right", "wrong", "absent"):
